@@ -606,7 +606,7 @@ func c17configs(tier string) []cfg {
 
 func c16configs(tier string) []cfg {
 	var out []cfg
-	for _, mode := range []string{"error", "safe", "wrapped", "panic", "wrapcancel", "safecancel", "custom"} {
+	for _, mode := range []string{"error", "safe", "wrapped", "panic", "wrapcancel", "barecancel", "safecancel", "custom"} {
 		pre := []string{"boom-" + mode}
 		out = append(out, cfg{Client: []string{"S:a:boom"}, Pre: pre})
 		out = append(out, cfg{Client: []string{"S:a:boom", "S:b:flag"}, Pre: pre, Env: []string{"flag++"}})
@@ -649,7 +649,7 @@ func register(prop, name, oracle string, bounds [2]int, cfgs func(string) []cfg,
 }
 
 func init() {
-	for _, c := range []string{"boom-safe", "boom-wrapped", "boom-error-once", "boom-wrapcancel", "boom-safecancel", "boom-custom"} {
+	for _, c := range []string{"boom-safe", "boom-wrapped", "boom-error-once", "boom-wrapcancel", "boom-barecancel", "boom-safecancel", "boom-custom"} {
 		mode := strings.TrimPrefix(c, "boom-")
 		changes = append(changes, struct {
 			name string
